@@ -90,12 +90,7 @@ def run_variants(prop, variants, verbose=True, use_cache=True):
     results = []
     if not variants:
         return results
-    d, repo = make_scratch()
-    # warm the scratch target dir from the main one (dependencies are keyed by package id, not by path)
-    starget = os.path.join(extract.CACHE, 'target-scratch-default')
-    mtarget = os.path.join(extract.CACHE, 'target-main-default')
-    if not os.path.isdir(starget) and os.path.isdir(mtarget):
-        subprocess.call(['cp', '-a', mtarget, starget])
+    d = repo = None
     FX = facts.load([extract.extract_fixture()])
     state = _repo_state()
     try:
@@ -106,6 +101,13 @@ def run_variants(prop, variants, verbose=True, use_cache=True):
             if cached:
                 files = cached
             else:
+              if d is None:
+                d, repo = make_scratch()
+                # warm the scratch target dir from the main one (dependencies are keyed by package id, not by path)
+                starget = os.path.join(extract.CACHE, 'target-scratch-default')
+                mtarget = os.path.join(extract.CACHE, 'target-main-default')
+                if not os.path.isdir(starget) and os.path.isdir(mtarget):
+                    subprocess.call(['cp', '-a', mtarget, starget])
               subprocess.check_call(['rsync', '-a', '--delete', '--exclude', '/target', '--exclude', '/.git', extract.REPO + '/', repo + '/'])
               ok, msg = apply_variant(repo, v)
               if not ok:
@@ -141,14 +143,114 @@ def run_variants(prop, variants, verbose=True, use_cache=True):
                     for o in failed[:6]:
                         print("        %s: %s [%s]" % (o.key, o.detail, o.loc))
     finally:
-        shutil.rmtree(d, ignore_errors=True)
-        shutil.rmtree(os.path.join(extract.CACHE, 'facts-scratch-default'), ignore_errors=True)
+        if d is not None:
+            shutil.rmtree(d, ignore_errors=True)
+            shutil.rmtree(os.path.join(extract.CACHE, 'facts-scratch-default'), ignore_errors=True)
     return results
+
+
+def uncached(variants):
+    state = _repo_state()
+    return [v for v in variants if not glob.glob(os.path.join(VCACHE, _variant_key(v, state), '*.jsonl'))]
+
+
+BENIGN = os.path.join(VERIF, 'benign')
+
+
+def run_benign(verbose=True):
+    """behaviour-preserving refactorings written by independent agents (benign/<id>/patch.diff): every property's rules
+    must stay silent.  benign/ACCEPTED.json lists the alarms that are accepted (with the reason): a rewritten algorithm
+    whose recorded shape / panic-site inventory has to be re-confirmed by a reader."""
+    import main as M
+    M.load_rules()
+    acc = {}
+    af = os.path.join(BENIGN, 'ACCEPTED.json')
+    if os.path.exists(af):
+        acc = json.load(open(af))
+    vs = []
+    for d in sorted(glob.glob(os.path.join(BENIGN, '*'))):
+        if os.path.exists(os.path.join(d, 'patch.diff')):
+            vs.append({'name': 'benign/' + os.path.basename(d), 'kind': 'diff', 'patch': os.path.join(d, 'patch.diff'), 'benign': True})
+    miss = uncached(vs)
+    if miss:
+        run_variants('C01', miss, verbose=False)     # produces (and caches) the facts
+    FX = facts.load([extract.extract_fixture()])
+    state = _repo_state()
+    out = []
+    for v in vs:
+        files = sorted(glob.glob(os.path.join(VCACHE, _variant_key(v, state), '*.jsonl')))
+        if not files:
+            out.append({'variant': v['name'], 'status': 'skipped'})
+            continue
+        P = facts.load(files)
+        keys = []
+        for prop in sorted(core.RULES):
+            c = core.Ctx(prop, P, 'quick', 'default', FX)
+            c.run()
+            keys += [o.key for o in c.failed()]
+        allowed = acc.get(os.path.basename(v['name']), {}).get('keys', [])
+        extra = [k for k in keys if not any(k.startswith(a) for a in allowed)]
+        status = 'silent-ok' if not keys else ('accepted-alarm' if not extra else 'FALSE-ALARM')
+        out.append({'variant': v['name'], 'status': status, 'fired': keys[:8], 'inlined': len(P.inline_log.log)})
+        if verbose:
+            print("  %-16s %-20s %s" % (status, v['name'], extra[:4] if extra else keys[:2]))
+    return out
+
+
+def main_parallel(props, save, jobs):
+    """all variants of all properties: facts of variants not yet cached are produced one after the other (one shared
+    scratch build directory), the evaluation of the rules then runs in `jobs` processes"""
+    import concurrent.futures
+    todo = {}
+    for p in props:
+        for v in uncached(load_variants(p)):
+            todo.setdefault(v['name'] + str(v.get('patch', '')) + json.dumps(v.get('edits', '')), (p, v))
+    if todo:
+        print("producing facts for %d variants" % len(todo))
+        byprop = {}
+        for p, v in todo.values():
+            byprop.setdefault(p, []).append(v)
+        for p, vs in byprop.items():
+            run_variants(p, vs, verbose=False)
+    outs = {}
+    env = dict(os.environ, VERIF_FIXTURE_FACTS=extract.extract_fixture())
+    with concurrent.futures.ThreadPoolExecutor(max_workers=jobs) as ex:
+        futs = {p: ex.submit(subprocess.run, [sys.executable, os.path.abspath(__file__), p, '--json'], stdout=subprocess.PIPE, stderr=subprocess.STDOUT, text=True, env=env) for p in props}
+        for p, f in futs.items():
+            outs[p] = f.result().stdout
+    bad = 0
+    allres = {}
+    resfile = os.path.join(VERIF, 'selftest_results.json')
+    for p in props:
+        txt = outs[p]
+        k = txt.rfind('JSON:')
+        rs = json.loads(txt[k + 5:]) if k >= 0 else []
+        print(txt[:k] if k >= 0 else txt, end='')
+        bad += sum(1 for r in rs if r['status'] in ('MISSED', 'FALSE-ALARM'))
+        allres[p] = [{kk: r.get(kk) for kk in ('variant', 'status', 'expected_rule', 'fired', 'desc')} for r in rs]
+    if save:
+        json.dump(allres, open(resfile, 'w'), indent=1)
+    return 1 if bad else 0
 
 
 def main(argv):
     save = '--save' in argv
-    argv = [a for a in argv if a != '--save']
+    asjson = '--json' in argv
+    jobs = 0
+    if '--jobs' in argv:
+        jobs = int(argv[argv.index('--jobs') + 1])
+        argv = [a for i, a in enumerate(argv) if a != '--jobs' and (i == 0 or argv[i - 1] != '--jobs')]
+    argv = [a for a in argv if a not in ('--save', '--json')]
+    if argv[0] == 'benign':
+        rs = run_benign()
+        if save:
+            resfile = os.path.join(VERIF, 'selftest_results.json')
+            allres = json.load(open(resfile)) if os.path.exists(resfile) else {}
+            allres['benign'] = rs
+            json.dump(allres, open(resfile, 'w'), indent=1)
+        return 1 if any(r['status'] == 'FALSE-ALARM' for r in rs) else 0
+    if jobs and argv[0] == 'all':
+        return main_parallel(['C%02d' % i for i in range(1, 21)], save, jobs)
     props = ['C%02d' % i for i in range(1, 21)] if argv[0] == 'all' else [argv[0]]
     sub = argv[1] if len(argv) > 1 else None
     bad = 0
@@ -164,6 +266,8 @@ def main(argv):
             continue
         print("%s: %d variants" % (p, len(vs)))
         rs = run_variants(p, vs)
+        if asjson:
+            print('JSON:' + json.dumps(rs))
         bad += sum(1 for r in rs if r['status'] in ('MISSED', 'FALSE-ALARM'))
         if save and not sub:
             allres[p] = [{k: r.get(k) for k in ('variant', 'status', 'expected_rule', 'fired', 'desc')} for r in rs]
